@@ -62,9 +62,14 @@ class _IdleReleaseInternalRunAdapter(BaseInternalRunAdapterDecorator):
     async def write_to_event_stream(self, event: Event) -> None:
         if isinstance(event, WorkflowIdleEvent):
             idle_since = datetime.now(timezone.utc)
-            await self._store.update_handler_status(
-                self.run_id, status="running", idle_since=idle_since
-            )
+            try:
+                await self._store.update_handler_status(
+                    self.run_id, status="running", idle_since=idle_since
+                )
+            except Exception:
+                # Marking the handler idle is best effort: a failed store write
+                # must not take the run's control loop down.
+                logger.exception("Failed to mark run %s idle", self.run_id)
         await super().write_to_event_stream(event)
         if isinstance(event, WorkflowIdleEvent):
             self._runtime._spawn_task(self._runtime._deferred_release(self.run_id))
